@@ -77,6 +77,36 @@ let handle_seq line =
        else begin
          cur_world := w';
          let res = trim res in
+         (* executable mirrors of C02_value_test_spec / C02_done_decision (kernel-free references) on the
+            implementation's own answers; C02_counts for the function counters *)
+         (match op, parts with
+          | "T", [p] ->
+            let rv = value_test_ref w.wst (zi p) in
+            if not (try same (fl res) rv with _ -> false) then
+              preport "value-test-spec: value_test(%s) = %s but the specification gives %s: %s" p res (hex rv) line
+          | "D", [ic] ->
+            (match split_on ' ' ic with
+             | [i; c] ->
+               (* the state's counters are refreshed first; validity does not depend on them *)
+               let (rr, rst) = done_ref w.wst (b01 i) (b01 c) in
+               let ost = (match split_str " | " (trim obs) with
+                          | [_; _; _; tail] -> (match List.filter (fun t -> t <> "") (split_on ' ' tail) with st :: _ -> int_of_string st | [] -> -1)
+                          | _ -> -1) in
+               if bres rr <> res || int_of_z rst <> ost then
+                 preport "done-decision: done(iter_ok=%s, converged=%s) returned %s with status %d, the specification gives %s with status %d: %s"
+                   i c res ost (bres rr) (int_of_z rst) line
+             | _ -> ())
+          | "E", [wg] ->
+            (match split_str " | " (trim obs) with
+             | [_; _; _; tail] ->
+               (match List.filter (fun t -> t <> "") (split_on ' ' tail) with
+                | [_; _; _; ffc; fgc] ->
+                  if int_of_string ffc <> int_of_z w.wfc + 1 || int_of_string fgc <> int_of_z w.wgc + (if b01 wg then 1 else 0) then
+                    preport "counts: function counters after an evaluation (with gradient: %s) are %s|%s, expected %d|%d: %s" wg ffc fgc
+                      (int_of_z w.wfc + 1) (int_of_z w.wgc + (if b01 wg then 1 else 0)) line
+                | _ -> ())
+             | _ -> ())
+          | _ -> ());
          let res_ok = mres = "ambiguous" || mres = res ||
                       ((op = "T" || op = "G") && (try same (fl res) (fl mres) with _ -> false)) in
          let ostr = trim obs in
@@ -150,6 +180,10 @@ let handle_ev line =
        let s = mk_state (fl fx) (flist x) (flist gx) (b01 fin) (zi st) (zi fc) (zi gc) in
        let e = { ev_s = s; ev_iter_ok = b01 iter_ok; ev_conv = b01 conv; ev_fc = zi ffc; ev_gc = zi fgc; ev_ret = b01 ret;
                  ev_status' = zi st'; ev_fcalls' = zi fc'; ev_gcalls' = zi gc'; ev_same = b01 same } in
+       (let (rr, rst) = done_ref s e.ev_iter_ok e.ev_conv in
+        if rr <> e.ev_ret || int_of_z rst <> int_of_z e.ev_status' then
+          preport "done-decision: RUN %d (%s) done() returned %b with status %d, the specification gives %b with status %d: %s"
+            ri.rid ri.solver e.ev_ret (int_of_z e.ev_status') rr (int_of_z rst) line);
        if not (event_ok e) then begin
          run_bad := true;
          let (s', r) = done_step s e.ev_fc e.ev_gc e.ev_iter_ok e.ev_conv in
@@ -209,7 +243,7 @@ let handle_end () =
     if st < 0 || st > 2 then preport "status: RUN %d (%s) returned status %d" ri.rid ri.solver st;
     if st = 1 && not (List.exists (fun e -> e.ev_conv) evs) then
       preport "status: RUN %d (%s) returned `converged` but no done() call had the converged flag" ri.rid ri.solver;
-    if st = 1 && is_ls ri.kind && not (has_nan r.sgx) && not (ltb (gradient_test_of r.sgx r.sfx) ri.eps) then
+    if st = 1 && is_ls ri.kind && not (has_nan r.sgx) && not (tf (gradient_test_of r.sgx r.sfx) < tf ri.eps) then
       preport "truthful: RUN %d (%s) returned `converged` with gradient_test = %s >= epsilon = %s // %s" ri.rid ri.solver
         (hex (gradient_test_of r.sgx r.sfx)) (hex ri.eps) rline;
     cur_run := None
